@@ -219,6 +219,34 @@ def arrive (v : Variant) (a : Nat) : DecState → List Byte → List (List Byte)
       arrive v a (decodeV v st [(a, store ++ p)] false).st (decodeV v st [(a, store ++ p)] false).store ps
     else some (decodeV v st [(a, store ++ p)] false)
 
+/-- the storage (decoded in place) put back into the segment structure -/
+def reseg : List Seg → List Byte → List Seg
+  | [], _ => []
+  | (a, bs) :: rest, store => (a, store.take bs.length) :: reseg rest (store.drop bs.length)
+
+/-- more input: appended to the last segment, or as a further segment with its own base alignment -/
+structure Arrival where
+  newSeg : Bool
+  align : Nat
+  bytes : List Byte
+  deriving Repr, DecidableEq
+
+def addArrival (segs : List Seg) (x : Arrival) : List Seg :=
+  match segs.getLast?, x.newSeg with
+  | some last, false => segs.dropLast ++ [(last.1, last.2 ++ x.bytes)]
+  | _, _ => segs ++ [(x.align, x.bytes)]
+
+/-- model of a receiver with an iovec array: every arrival extends the last segment or adds a segment
+    (possibly empty), the decoder is called on the whole array after every arrival; result of the first
+    call that does not return 0 -/
+def arriveSegs (v : Variant) : DecState → List Seg → List Arrival → Option DecOut
+  | _, _, [] => none
+  | st, segs, x :: xs =>
+    if (decodeV v st (addArrival segs x) false).ret = .val 0 then
+      arriveSegs v (decodeV v st (addArrival segs x) false).st
+        (reseg (addArrival segs x) (decodeV v st (addArrival segs x) false).store) xs
+    else some (decodeV v st (addArrival segs x) false)
+
 /-- `source == NULL`: reset (`sourcelen == 0`) or size query -/
 def decodeQuery (v : Variant) (st : DecState) (n : Nat) : DecRet × DecState :=
   if n = 0 then (.val 0, { st with ctx := 0 })
